@@ -133,7 +133,10 @@ def body_must_pass(fn: Fn, loop, pnodes) -> Optional[list]:
     """Witness of an iteration of `loop` (entered at its first body statement) that reaches the loop
     head again or leaves the function without passing a node of pnodes; None when there is none."""
     heads = fn.cfg.nodes_for(loop)
-    firsts = fn.cfg.nodes_for(loop.body[0])
+    first_stmt = loop.body[0]
+    while isinstance(first_stmt, ast.Try) and first_stmt.body:     # a try is entered at its first body statement
+        first_stmt = first_stmt.body[0]
+    firsts = [n for n in fn.cfg.nodes_for(first_stmt) if n.kind != "handler"]
     if not heads or not firsts:
         raise AnalysisError(f"{fn.fi.qual}: loop at line {loop.lineno} has no CFG nodes")
     pset = set(pnodes)
@@ -1377,10 +1380,123 @@ def r9(ctx):
     ctx.floor("C14.R9", "fresh-Object tracking sites in the update handlers", n, 1)
 
 
+# --------------------------------------------------------------------------- audit round (D85-D89 fixes)
+
+def r_audit(ctx):
+    repo = ctx.repo
+    # (1) children exempt from the cascading kill stay orphans of an untracked killed parent
+    kil = Fn(ctx, f"{WM}._kill_object_by_local_id")
+    lid = kil.params[2] if len(kil.params) > 2 else None
+    to = repo.fn(f"{RS}._track_orphan")
+    for lp in [x for x in walk(kil.tree) if isinstance(x, ast.For)]:
+        kills = [c for c in find_calls(lp, "_kill_object_by_local_id", into_defs=False)
+                 if len(c.args) >= 2 and ap(c.args[1]) == ap(lp.target)]
+        if not kills:
+            continue
+        kn = set(n for c in kills for n in kil.nodes(c))
+        heads = set(kil.cfg.nodes_for(lp))
+        skips = [k for k in walk(lp) if isinstance(k, ast.Continue)
+                 and normal_path(kil.cfg, kil.nodes(k), lambda n: n in heads, lambda n: n in kn) is not None]
+        tracks = [c for c in find_calls(lp, "_track_orphan", into_defs=False)
+                  if ap(bind_call(to, c).get("local_id")) == ap(lp.target) and ap(bind_call(to, c).get("parent_id")) == lid]
+        for k in skips:
+            base = {(norm(e), p) for e, p in facts(k, lp)}
+            ok = False
+            for t in tracks:
+                extra = [(e, p) for e, p in facts(t, lp) if (norm(e), p) not in base]
+                unknown_parent = all(
+                    not p and isinstance(e, ast.Name) and isinstance(single_def(kil.tree, e.id), ast.Call)
+                    and call_attr(single_def(kil.tree, e.id)) == "lookup_localid" for e, p in extra)
+                tn = kil.nodes(t)
+                if len(extra) <= 1 and unknown_parent and \
+                        normal_path(kil.cfg, tn, lambda n: n in set(kil.nodes(k)), lambda n: n in kn) is not None:
+                    ok = True
+            ctx.ob("C14.R6", f"{WM}._kill_object_by_local_id: a child exempt from the cascade stays an orphan of an "
+                             f"untracked killed parent", ok, kil.w(k),
+                   f"the orphan list of the untracked id was taken out of the orphanage (collect_orphans) and this branch "
+                   f"skips the child without _track_orphan({ap(lp.target)}, {lid}): the surviving child is neither a child "
+                   f"nor an orphan and is never adopted when the parent's local id is announced")
+    # (2) lookup by handle prefers a live region
+    rbh = repo.fn("BaseClientSession.region_by_handle")
+    alive = any(p and (ap(e) or "").endswith(".is_alive") for r in walk(rbh.node) if isinstance(r, ast.Return)
+                for e, p in facts(r, rbh.node)) or any(
+        (ap(x) or "").endswith(".is_alive") for g in walk(rbh.node) if isinstance(g, (ast.GeneratorExp, ast.ListComp))
+        for gen in g.generators for i in gen.ifs for x in ast.walk(i))
+    ctx.ob("C14.R8", "BaseClientSession.region_by_handle prefers a live region over a dead one with the same handle", alive,
+           rbh.where, "dead regions stay in session.regions; the first region with the handle is returned dead or alive, so "
+                      "after a region restart track_region_objects registers the dead region's object manager")
+    # (3) a reply resolves pending requests whether or not it changed anything
+    upd = Fn(ctx, f"{WM}._update_existing_object")
+    states = {s_.path for s_ in stores(upd.tree, into_defs=False) if s_.kind == "assign" and isinstance(s_.value, ast.Call)
+              and call_attr(s_.value) == "_get_region_state"}
+    rcs = [c for c in calls(upd.tree) if call_attr(c) in ("_run_object_update_hooks", "resolve_futures")]
+
+    def cond(c):
+        out = []
+        for e, p in facts(c, upd.tree):
+            t = is_none_test(e)
+            if (t and t[0] in states) or (isinstance(e, ast.Name) and e.id in states):
+                continue
+            out.append((norm(e), p))
+        return out
+    fs_ = [cond(c) for c in rcs]
+    covered = any(not f for f in fs_) or any(len(a_) == 1 and len(b_) == 1 and a_[0][0] == b_[0][0] and a_[0][1] != b_[0][1]
+                                             for a_ in fs_ for b_ in fs_)
+    ctx.ob("C14.R4", f"{WM}._update_existing_object: a reply resolves the object's pending requests whether or not it "
+                     f"changed anything", bool(rcs) and covered, upd.fi.where,
+           f"futures are resolved only under {fs_}: the reply to a repeated request for an unchanged object leaves the "
+           f"request pending forever (never resolved, never cancelled)")
+    # (4) the avatar index forgets an object together with the full-id index
+    for q in (f"{WM}._kill_object_by_local_id", f"{WM}.untrack_region_objects"):
+        g = Fn(ctx, q)
+        for s_ in stores(g.tree, into_defs=False):
+            if not s_.path.endswith("._fullid_lookup"):
+                continue
+            k = s_.target.slice if s_.kind == "delitem" else s_.node.args[0] if (
+                s_.kind == "mutcall" and s_.method == "pop" and s_.node.args) else None
+            if k is None or not (ap(k) or "").endswith(".FullID"):
+                continue
+            base = {(norm(e), p) for e, p in facts(s_.node, g.tree)}
+            ok = False
+            for a_ in stores(g.tree, into_defs=False):
+                if not a_.path.endswith("._avatar_objects"):
+                    continue
+                ka = a_.target.slice if a_.kind == "delitem" else a_.node.args[0] if (
+                    a_.kind == "mutcall" and a_.method == "pop" and a_.node.args) else None
+                if ka is None or ap(ka) != ap(k):
+                    continue
+                extra = [(e, p) for e, p in facts(a_.node, g.tree) if (norm(e), p) not in base]
+                if all(p and isinstance(e, ast.Compare) and "AVATAR" in norm(e) for e, p in extra):
+                    ok = True
+            ctx.ob("C14.R2", f"{q}: _fullid_lookup removal of {ap(k)} goes with the _avatar_objects removal", ok,
+                   g.w(s_.node), "the avatar list is rebuilt from _avatar_objects: an avatar whose Object left the full-id "
+                                 "index stays a valid Avatar pointing at the unloaded Object")
+    # (5) clearing the world clears every registered region manager
+    wc = Fn(ctx, f"{WM}.clear")
+    ok5 = False
+    for lp in [x for x in walk(wc.tree) if isinstance(x, ast.For)]:
+        pth = ap(strip_copy(lp.iter)[0]) or ""
+        if "._region_managers" not in pth:
+            continue
+        vals = set()
+        if pth.endswith(".items()") and isinstance(lp.target, (ast.Tuple, ast.List)) and len(lp.target.elts) == 2:
+            vals.add(ap(lp.target.elts[1]))
+        elif pth.endswith(".values()"):
+            vals.add(ap(lp.target))
+        cs = [c for c in find_calls(lp, "clear", into_defs=False) if isinstance(c.func, ast.Attribute) and (
+            ap(c.func.value) in vals or (isinstance(c.func.value, ast.Subscript) and (ap(c.func.value.value) or "").endswith("._region_managers")))]
+        if cs and body_must_pass(wc, lp, [n for c in cs for n in wc.nodes(c)]) is None and must_pass(wc.cfg, wc.cfg.nodes_for(lp)) is None:
+            ok5 = True
+    ctx.ob("C14.R8", f"{WM}.clear clears every registered region object manager", ok5, wc.fi.where,
+           "world teardown only signals `region was cleared` (untrack_region_objects) without clearing the regions: their "
+           "local-id indices keep every object and their pending requests are neither resolved nor cancelled")
+
+
 def run(ctx):
     discover_futures_table(ctx)
     r8(ctx)
     r9(ctx)
+    r_audit(ctx)
     r1(ctx)
     r2(ctx)
     r2_kill_blocks(ctx)
